@@ -72,7 +72,9 @@ Result run(const std::vector<std::function<void()>>& bodies, Schedule& sch, size
 // Call first thing in main(): re-executes the process with address-space randomisation off (once), and makes the
 // time-stamp counter virtual (RDTSC traps and returns a counter that advances by a fixed amount per read).
 void init_determinism(int argc, char** argv);
-uint64_t virtual_now_ns();     // virtual monotonic clock: advances by a fixed step per call
+uint64_t virtual_now_ns();
+// Install handlers for SIGSEGV/SIGBUS/SIGABRT/SIGFPE that print `CRASH signal=<n> tid=<t>` and the schedule so far, then _exit(4).
+void report_crashes();     // virtual monotonic clock: advances by a fixed step per call
 
 // --- canonical printing ------------------------------------------------------------------------------
 void name_addr(const volatile void* addr, const std::string& name);   // symbol table for log output
